@@ -43,6 +43,17 @@ Proof.
   repeat split; try assumption; [eapply get_names; eassumption|apply window_spec].
 Qed.
 
+(* for every history: an averaged statistic never divides by zero, its divisor never
+   exceeds the number of recorded samples, and the sum is over a suffix (the most
+   recent samples) of what was recorded under that name *)
+Theorem average_never_divides_by_zero : forall ops mh s n sm dv,
+  snd (step (fst (run [] ops)) (Get true mh)) = Stats s -> In (n, (sm, dv)) s ->
+  1 <= dv <= length (samples (fst (run [] ops)) n) /\
+  exists pre, samples (fst (run [] ops)) n = pre ++ window mh (samples (fst (run [] ops)) n) /\
+              sm = zsum (window mh (samples (fst (run [] ops)) n)) /\
+              dv = length (window mh (samples (fst (run [] ops)) n)).
+Proof. exact TraceP.average_divisor. Qed.
+
 Theorem clear_empties : forall t av mh, fst (step t Clear) = [] /\
   snd (step (fst (step t Clear)) (Get av mh)) = Stats [].
 Proof. exact TraceP.clear_empties. Qed.
@@ -64,5 +75,6 @@ Print Assumptions trace_transparent.
 Print Assumptions one_sample_per_completed_call.
 Print Assumptions history_refines_spec.
 Print Assumptions get_trace_spec.
+Print Assumptions average_never_divides_by_zero.
 Print Assumptions clear_empties.
 Print Assumptions max_history_zero.
